@@ -25,7 +25,7 @@ MANIFEST = {
 THEOREMS = ['C10.view_refines_partial', 'C10.view_step', 'C10.wf_step', 'C10.coupled_step',
             'C10.view_channels', 'C10.view_channel', 'C10.view_channel_gone',
             'C10.own_part_removes', 'C10.own_kick_removes', 'C10.reconnect_clears',
-            'C10.view_refines_fails_intarg',
+            'C10.view_refines_fails_intarg', 'C10.separateModes_ignores_isupport', 'C10.param_mode_mispaired',
             'C10.separateModes_render',
             'C10.rfc1459_table_ok', 'C10.sigils_not_in_nicks', 'C10.sigil_table_ok', 'C10.mode_tables_ok',
             'C10.tracked_table_ok', 'C10.chan_table_ok', 'C10.setters_in_ok', 'C10.setters_out_ok']
@@ -177,7 +177,7 @@ class PySrv(object):
             elif m in c.modes: del c.modes[m]
             else: return False
             return True
-        if m in LIMIT_MODES:
+        if m in LIMIT_MODES or m in self.cfg.get('extraParamModes', ''):
             if add:
                 if arg is None or not valid_param(arg): return False
                 c.modes[m] = arg
@@ -185,7 +185,7 @@ class PySrv(object):
                 if arg is not None or m not in c.modes: return False
                 del c.modes[m]
             return True
-        if is_flag_mode(m):
+        if is_flag_mode(m) and m not in self.cfg.get('extraParamModes', ''):
             if arg is not None: return False
             if add: c.modes[m] = None
             elif m in c.modes: del c.modes[m]
@@ -541,6 +541,8 @@ def gen_change(r, S, cname, findings):
     if x < 0.8:
         lims = LIMITS if findings == 'intarg' else [k for k in LIMITS if canon_arg(k)]
         return (add, 'l', r.choice(lims) if add or r.random() < 0.1 else None)
+    if findings == 'extmodes' and x < 0.9:
+        return (add, r.choice('fj'), r.choice(['5:10', '3:2', '9']) if add else None)
     if x < 0.95:
         return (add, r.choice(FLAGS), None if r.random() < 0.95 else 'x')
     m = r.choice('eqI')
@@ -678,7 +680,11 @@ def gen_script(r, kind, length):
     cfg = gen_cfg(r, kind)
     S = PySrv(cfg)
     script = []
-    fmode = 'intarg' if kind == 'findings' else False
+    fmode = r.choice(['intarg', 'extmodes']) if kind == 'findings' else False
+    if fmode == 'extmodes':
+        # a server whose ISUPPORT CHANMODES has further parameter modes (e.g. +f flood, +j join throttle);
+        # only the Python reference server knows them: the Lean Srv's mode classes are those of the bot's tables
+        cfg['extraParamModes'] = 'fj'
     for _ in range(length):
         if kind == 'hostile' and len(script) > 6 and r.random() < 0.6:
             script.append(('msg', gen_hostile(r, S)))
@@ -701,10 +707,20 @@ def _mode_diff_classes(d):
             out.add(None)
     return out
 
-def classify(script, fails):
-    """finding class of a failing history: only when every difference is confined to a modes dict and is
-    explained by one of the listed classes; anything else stays unclassified (= a violation)"""
-    if not fails or not all(mo for _, _, mo in fails):
+def uses_extra_param_modes(cfg, script):
+    ex = cfg.get('extraParamModes', '')
+    return bool(ex) and any(w == 'act' and a[0] == 'mode' and any(m in ex for _, m, _ in a[3]) for w, a in script)
+
+def classify(script, fails, cfg=None):
+    """finding class of a failing history (None = unexplained = a violation):
+    * C10-param-modes-not-from-isupport: the server has parameter modes the bot's hard-coded tables do not know and the
+      history uses one (mode arguments are then mis-paired, which can corrupt ops/voices/bans as well);
+    * C10-mode-arg-int: every difference is confined to a modes dict, key k or l, and is the int() rewriting."""
+    if not fails:
+        return None
+    if cfg is not None and uses_extra_param_modes(cfg, script):
+        return 'C10-param-modes-not-from-isupport'
+    if not all(mo for _, _, mo in fails):
         return None
     classes = set()
     for _, diffs, _ in fails:
@@ -741,7 +757,7 @@ def make_case(real, cfg, script, kind, do_shrink=True):
     inp = {'cfg': cfg, 'script': script, 'kind': kind}
     c = Case(inp, impl='\n'.join(impl), kind=kind, tags=sorted(tags) if nmsgs else ())
     if fails:
-        fid = classify(script, fails)
+        fid = classify(script, fails, cfg)
         c.oracle_ok = False
         c.finding = fid
         idx, d, _ = fails[0]
@@ -749,7 +765,7 @@ def make_case(real, cfg, script, kind, do_shrink=True):
         if do_shrink and fid is None:
             def still(s):
                 _, f2, _, _ = run_history(real, cfg, s)
-                return bool(f2) and classify(s, f2) is None
+                return bool(f2) and classify(s, f2, cfg) is None
             small = shrink(real, cfg, small, still)
             _, f2, _, _ = run_history(real, cfg, small)
             if f2: d = f2[-1][1]
@@ -757,6 +773,8 @@ def make_case(real, cfg, script, kind, do_shrink=True):
         c.oracle_msg = ('after %s the bot\'s view differs from the server\'s: ' % (json.dumps(small[-1][1], ensure_ascii=False),)) + '; '.join(d[:4])
         if c.input['script'] != script:
             c.impl = None       # the stored input is the shrunk one; correspondence not compared for it
+    if cfg.get('extraParamModes'):
+        c.impl = None           # a server outside the Lean Srv's mode classes: implementation + oracle only
     return c
 
 def explore(real, r, n_hist, length, offset=0):
@@ -847,7 +865,7 @@ def run(ctx):
         w = f['witness']
         script = [(x[0], _tuplify(x[1])) for x in w['script']]
         _, fails, _, _ = run_history(real, w['cfg'], script)
-        status[f['id']] = (bool(fails) and classify(script, fails) == f['id'], f.get('what_fails', ''))
+        status[f['id']] = (bool(fails) and classify(script, fails, w['cfg']) == f['id'], f.get('what_fails', ''))
     def search(disagreements, broken):
         os.environ['VERIF_SEED'] = str(ctx.seed + 7919)
         try:
